@@ -11,20 +11,13 @@ def boundary_cases(ctx):
     out = []
     for n in BOUNDARY_LENGTHS + [65535, 65536] + [ctx.rng.randrange(2, 3000) for _ in range(3)]:
         out.append(codec.Case(('octs',), ('o', bytes((i * 7 + n) % 251 for i in range(n)) if n < 300 else bytes([n % 251]) * n)))
+    for n in ((7992, 7993, 8001) if ctx.tier == 'quick' else (7985, 7991, 7992, 7993, 8000, 8001, 15985, 16003)):   # BIT STRING around 999 / 1000 octets of bits (9.2)
+        out.append(codec.Case(('bits',), ('bits', tuple((i * i + n) % 3 == 0 and 1 or 0 for i in range(n)))))
     for n in (999, 1001, 2500):
         out.append(codec.Case(('str', 'IA5String'), ('chars', 'q' * n)))
         out.append(codec.Case(('seq', [('req', ('str', 'UTF8String')), ('req', ('int',))]),
                               ('rec', [('chars', 'é' * (n // 2)), ('i', n)])))
     return out
-
-
-def f35_applies(T, v, cdc):
-    """F35: CER BIT STRING segmentation uses 1000 octets of bits per segment (1001 contents octets)"""
-    if cdc != 'CER': return False
-    for ct, cv, _ in codec.encoded_components(T, v):
-        if base_desc(ct)[0] == 'bits' and len(cv[1]) > 7992:
-            return True
-    return False
 
 
 def run(ctx):
@@ -78,8 +71,6 @@ def run(ctx):
             continue
         indefinite = m['codec'] == 'CER' or m.get('defMode') is False
         fid = codec.classify_roundtrip(m['T'], m['v'], m['codec'], indefinite)
-        if fid is None and f35_applies(m['T'], m['v'], m['codec']):
-            fid = 'F35'
         what = ('%s output differs from the X.690 reference encoding' % m['codec'] if m['kind'] == 'ref'
                 else '%s output does not denote the value when read by the X.690 reference reader' % m['codec'])
         ctx.prop_fail(what, m, finding=fid)
